@@ -27,6 +27,9 @@ def run(ctx) -> None:
     ctx.rule("R2", "BUILD is never reset")
     ctx.rule("R3", "BUILD stays a string from read to write")
     ctx.rule("R4", "padding (< T -> + T, T a power of ten) dominates the successor")
+    ctx.rule("R5", "prerequisite: 'successive bumps' start from the newest version - the tag that replaces the config value is chosen under version.parse_version, not as text (C09/R1)")
+    from sa.report import run_prerequisite
+    run_prerequisite(ctx, "C09", ("R1",), "R5", only=lambda key: "_update_cfg_from_vcs" in key)
 
     # R3 (ordering side): a build id is a digit string whose order is numeric (and lexical only from four digits on): it is
     # never ordered as text.  Any `<`, `<=`, `>`, `>=` with a `.bid` operand (or a local bound to one) outside int(...) is one.
